@@ -76,12 +76,30 @@ def impl_lex_line(s):
         return 'err ' + type(e).__name__
 
 
-def s_lex(ctx, inputs, impl_lines=None):
+def _lex_project(line):
+    """what C01 observes of a token stream: the values and which tokens are Error"""
+    if not line.startswith('ok'):
+        return line.strip()
+    out = []
+    for item in line[3:].split(';'):
+        t, _, v = item.partition('=')
+        out.append(('E' if t == 'Error' else 'T') + '=' + v.strip())
+    return 'ok ' + ';'.join(out)
+
+
+def s_lex(ctx, inputs, impl_lines=None, project=False):
+    """project=True compares only token values and Error-ness (the observation property C01 makes); a difference in other token
+    types is then recorded as model drift, not as a broken correspondence"""
     outs = ctx.model.ask(['lex ' + hexs(s) for s in inputs])
     for i, (s, mo) in enumerate(zip(inputs, outs)):
         io = impl_lines[i] if impl_lines is not None else impl_lex_line(s)
         ctx.stream('S-LEX', inputs=1, lines=1)
         if io.strip() != mo.strip():
+            if project and _lex_project(io) == _lex_project(mo):
+                if len(ctx.drift) < 20:
+                    ctx.drift.append({'stream': 'S-LEX', 'input': s, 'model': mo[:200], 'impl': io[:200]})
+                ctx.streams['S-LEX']['model_drift'] = ctx.streams['S-LEX'].get('model_drift', 0) + 1
+                continue
             ctx.mismatch('S-LEX', s, mo[:300], io[:300])
 
 
